@@ -78,6 +78,12 @@ pub fn grid(thorough: bool) -> Vec<GridNum> {
     g.push(comp("(/ 1/2)", int(2)));
     g.push(comp("(/ -1/3)", int(-3)));
     g.push(comp("(* 2/3 3/2)", int(1)));
+    // numbers that come out of quoted data and vector literals (read by another path than literals)
+    g.push(comp("(car '(4/2))", int(2)));
+    g.push(comp("(car '(2/4 1))", exact(1, 2)));
+    g.push(comp("(vector-ref '#(0/5 6/3) 1)", int(2)));
+    g.push(comp("(car (cdr '(1 -6/4)))", exact(-3, 2)));
+    g.push(comp("(vector-ref '#(1.5) 0)", RNum::Inexact(1.5)));
     for t in [
         "0.0", "-0.0", "0.5", "-2.5", "1.5", "3.0", "-3.0", "1e10", "16777216.0", "1e38", "1e-45",
         "0.1", "-1e10", "7.25",
